@@ -248,9 +248,12 @@ def run(ctx):
     # the PREMISE of the refinement theorem (C01_primitive_float_program_refines_rounding_model: no overflow, no harmful underflow in any intermediate result) is
     # evaluated on the same cases: where it holds, the value the code returned is -- by bit-equality with l2_cost_F, the refinement theorem and the error theorem --
     # within the proved bound of the residual sum of squares of the data
-    prem = coq_bad_cases(ctx.cid, fk_header, "fk_case", "(fun c => match fk_mu c with None => l2_trace_ok (fk_xs c) (fk_s c) (fk_e c) | Some _ => true end)", fk_terms, shard=120, tag="fkprem")
-    n_opt = sum(1 for m_ in fk_meta if m_["fixed_mean"] is None)
-    ctx.notes["float_refinement_premise"] = f"l2_trace_ok holds on {n_opt - len(prem)} of {n_opt} optimal-mean cases (data of scale 1e-3 .. 1e4: no overflow / underflow expected)"
+    fk_header = fk_header.replace("Proofs.FloatRefine.", "Proofs.FloatRefine Proofs.FloatKernels2.")
+    prem = coq_bad_cases(ctx.cid, fk_header, "fk_case", "(fun c => match fk_mu c with None => l2_trace_ok (fk_xs c) (fk_s c) (fk_e c) | Some mu => l2_fixed_trace_ok mu (fk_xs c) (fk_s c) (fk_e c) end)",
+                         fk_terms, shard=120, tag="fkprem")
+    n_opt = len(fk_meta)
+    ctx.notes["float_refinement_premise"] = (f"l2_trace_ok / l2_fixed_trace_ok holds on {n_opt - len(prem)} of {n_opt} cases (optimal and fixed mean; data of scale 1e-3 .. 1e4: "
+                                             "no overflow / underflow expected)")
     if len(prem) > n_opt // 10:
         ctx.mismatch(f"the premise l2_trace_ok of the float refinement theorem fails on {len(prem)} of {n_opt} ordinary cases: the checker or the kernel model is off",
                      {"first": fk_meta[prem[0]]}, {"what": "float-refinement-premise"})
